@@ -292,9 +292,9 @@ func pbOne(c pbCase) {
 		p := lib.Try("partiallyblindrsa.VerifierState.Finalize:"+a.class, a.data, func() { out, err = ss[0].state.Finalize(a.data) })
 		switch {
 		case p != nil:
-			pbViol(c, "finalize-panics", "partiallyblindrsa.VerifierState.Finalize:"+a.class, "blind_sig", a.data, "panic", p.Value, "frame", p.TopFrame())
+			pbViol(c, "finalize-panics", "partiallyblindrsa.VerifierState.Finalize:"+altGroup(a.class), "class", a.class, "blind_sig", a.data, "panic", p.Value, "frame", p.TopFrame())
 		case err == nil:
-			pbViol(c, "finalize-accepts-altered", "partiallyblindrsa.VerifierState.Finalize:"+a.class, "honest_blind_sig", z, "altered_blind_sig", a.data, "returned", out)
+			pbViol(c, "finalize-accepts-altered", "partiallyblindrsa.VerifierState.Finalize:"+altGroup(a.class), "class", a.class, "honest_blind_sig", z, "altered_blind_sig", a.data, "returned", out)
 		default:
 			lib.Count("pb:finalize-altered-refused")
 		}
@@ -330,9 +330,9 @@ func pbOne(c pbCase) {
 		p := lib.Try("partiallyblindrsa.Signer.BlindSign:"+a.class, a.data, func() { out, err = signer.BlindSign(a.data, info) })
 		switch {
 		case p != nil:
-			pbViol(c, "signer-panics", "partiallyblindrsa.Signer.BlindSign:"+a.class, "input", a.data, "panic", p.Value, "frame", p.TopFrame())
+			pbViol(c, "signer-panics", "partiallyblindrsa.Signer.BlindSign:"+altGroup(a.class), "class", a.class, "input", a.data, "panic", p.Value, "frame", p.TopFrame())
 		case err == nil:
-			pbViol(c, "signer-accepts-out-of-range", "partiallyblindrsa.Signer.BlindSign:"+a.class, "input", a.data, "output", out)
+			pbViol(c, "signer-accepts-out-of-range", "partiallyblindrsa.Signer.BlindSign:"+altGroup(a.class), "class", a.class, "input", a.data, "output", out)
 		default:
 			lib.Count("pb:signer-refused")
 		}
